@@ -18087,6 +18087,91 @@ impl<SP: SignerProvider> FundedChannel<SP> {
 	}
 }
 
+#[cfg(all(feature = "verif_hooks", feature = "std"))]
+impl<SP: SignerProvider> FundedChannel<SP> {
+	/// Verification hook (C01, cooperative close): evaluates the private `build_closing_transaction`,
+	/// `calculate_closing_fee_limits` and `get_closing_transaction_weight` on the given balance / channel
+	/// value / dust limit / funder side / fee inputs, which temporarily replace the channel's own fields.
+	/// Every field is restored before returning (a `debug_assert!` panic of the evaluated function is
+	/// caught and reported as `Err`). The channel must have no pending HTLCs and no pending fee update.
+	/// Returns the build result `(to_holder, to_counterparty, total_fee, output values of the built
+	/// transaction)`, the fee limits `(min, max)` and the weight of the two-output closing transaction.
+	pub(crate) fn verif_closing_probe<F: FeeEstimator>(
+		&mut self, fee_estimator: &LowerBoundedFeeEstimator<F>, value_to_self_msat: u64,
+		channel_value_satoshis: u64, holder_dust_limit_satoshis: u64, is_outbound: bool,
+		proposed_total_fee_satoshis: u64, skip_remote_output: bool,
+		target_closing_feerate_sats_per_kw: Option<u32>, feerate_per_kw: u32,
+		force_close_avoidance_max_fee_satoshis: u64,
+	) -> (Result<(u64, u64, u64, Vec<u64>), String>, Result<(u64, u64), String>, u64) {
+		let saved = (
+			self.funding.value_to_self_msat,
+			self.funding.channel_transaction_parameters.channel_value_satoshis,
+			self.funding.channel_transaction_parameters.is_outbound_from_holder,
+			self.context.holder_dust_limit_satoshis,
+			self.context.shutdown_scriptpubkey.clone(),
+			self.context.counterparty_shutdown_scriptpubkey.clone(),
+			self.context.closing_fee_limits,
+			self.context.target_closing_feerate_sats_per_kw,
+			self.context.feerate_per_kw,
+			self.context.config.options.force_close_avoidance_max_fee_satoshis,
+		);
+		self.funding.value_to_self_msat = value_to_self_msat;
+		self.funding.channel_transaction_parameters.channel_value_satoshis = channel_value_satoshis;
+		self.funding.channel_transaction_parameters.is_outbound_from_holder = is_outbound;
+		self.context.holder_dust_limit_satoshis = holder_dust_limit_satoshis;
+		if self.context.shutdown_scriptpubkey.is_none() {
+			self.context.shutdown_scriptpubkey = Some(ShutdownScript::new_p2wpkh_from_pubkey(
+				self.funding.get_holder_pubkeys().funding_pubkey,
+			));
+		}
+		if self.context.counterparty_shutdown_scriptpubkey.is_none() {
+			self.context.counterparty_shutdown_scriptpubkey = Some(
+				ShutdownScript::new_p2wpkh_from_pubkey(*self.funding.counterparty_funding_pubkey())
+					.into_inner(),
+			);
+		}
+		self.context.closing_fee_limits = None;
+		self.context.target_closing_feerate_sats_per_kw = target_closing_feerate_sats_per_kw;
+		self.context.feerate_per_kw = feerate_per_kw;
+		self.context.config.options.force_close_avoidance_max_fee_satoshis =
+			force_close_avoidance_max_fee_satoshis;
+
+		let built = std::panic::catch_unwind(core::panic::AssertUnwindSafe(|| {
+			self.build_closing_transaction(proposed_total_fee_satoshis, skip_remote_output)
+		}));
+		let built = match built {
+			Ok(Ok((tx, fee))) => Ok((
+				tx.to_holder_value_sat(),
+				tx.to_counterparty_value_sat(),
+				fee,
+				tx.trust().built_transaction().output.iter().map(|o| o.value.to_sat()).collect(),
+			)),
+			Ok(Err(e)) => Err(format!("{:?}", e)),
+			Err(_) => Err("panic".to_string()),
+		};
+		let limits = std::panic::catch_unwind(core::panic::AssertUnwindSafe(|| {
+			self.calculate_closing_fee_limits(fee_estimator)
+		}))
+		.map_err(|_| "panic".to_string());
+		let weight = self.get_closing_transaction_weight(
+			Some(&self.get_closing_scriptpubkey()),
+			Some(self.context.counterparty_shutdown_scriptpubkey.as_ref().unwrap()),
+		);
+
+		self.funding.value_to_self_msat = saved.0;
+		self.funding.channel_transaction_parameters.channel_value_satoshis = saved.1;
+		self.funding.channel_transaction_parameters.is_outbound_from_holder = saved.2;
+		self.context.holder_dust_limit_satoshis = saved.3;
+		self.context.shutdown_scriptpubkey = saved.4;
+		self.context.counterparty_shutdown_scriptpubkey = saved.5;
+		self.context.closing_fee_limits = saved.6;
+		self.context.target_closing_feerate_sats_per_kw = saved.7;
+		self.context.feerate_per_kw = saved.8;
+		self.context.config.options.force_close_avoidance_max_fee_satoshis = saved.9;
+		(built, limits, weight)
+	}
+}
+
 #[cfg(test)]
 mod tests {
 	use crate::chain::chaininterface::LowerBoundedFeeEstimator;
